@@ -44,7 +44,9 @@ def injector(ctx):
                 ob.refute("slave-partial:%s" % tag, "%s: the controller interface is connected with keep/omit %s/%s: not all signals pass" %
                           (tag, l.stmt.keep, l.stmt.omit), l.loc)
             if to_master:
-                src = "slave" if from_slave else ("ext_dfi" if any(r.startswith("ext_dfi") for r in reads) else ("csr_dfi" if any(r.startswith("csr_dfi") for r in reads) else "?"))
+                # the third source is the module's own (CSR-driven) interface: a whole-record connect from a local interface, whatever it is called
+                local_if = l.kind == "connect" and reads and not any(r.split(".")[0] in ("slave", "ext_dfi", "master") for r in reads)
+                src = "slave" if from_slave else ("ext_dfi" if any(r.startswith("ext_dfi") for r in reads) else ("csr_dfi" if local_if else "?"))
                 want = {"slave": hw, "ext_dfi": {sel, "ext_dfi_sel"}, "csr_dfi": {"~" + sel}}.get(src)
                 if want is None or g != want:
                     ob.refute("mux-guard:%s:%s:%s" % (tag, src, tgt), "%s: master is driven from %s under %s, expected exactly %s" %
